@@ -394,3 +394,110 @@ Proof.
   destruct (leadingN c _) as [l|] eqn:E; [|discriminate]. rewrite (leadingN_lead_max _ _ _ E).
   destruct (omap _ ks) as [t|] eqn:Et; [|discriminate]. now rewrite (IH t eq_refl).
 Qed.
+
+(* ---------- "the principal components OF EACH CHANNEL": a per-channel oracle ---------- *)
+(* _compute_pcs loops over the channels; the components of channel k are computed from x[:, :, k] alone (np.cov +
+   eigh of that channel) and stacked (np.dstack).  With the eigen-solver as a PER-CHANNEL oracle [eig] (spikes x samples
+   -> 3 x samples) the features of a requested channel depend on that channel's waveforms only: on the waveform route the
+   column of a channel is the same wherever, and with whatever other channels, it is requested (the analogue of
+   C06_get_features_perm for stored features). *)
+Section PerChannel.
+Context {R : Type}.
+Variables (radd rmul : R -> R -> R) (rzero : R).
+Variable eig : list (list R) -> list (list R).
+
+(* x[:, :, k] *)
+Definition chan_slice (w : list (list (list R))) (k : nat) : list (list R) :=
+  map (fun wl => map (fun row => nth k row rzero) wl) w.
+
+(* pcs[i][j][k] = eig(x[:, :, k])[i][j]; no spike at all: alpha = 1. / nspikes raises (no components) *)
+Definition pcs_by_channel (nsamp nc : nat) (w : list (list (list R))) : list (list (list R)) :=
+  match w with
+  | [] => []
+  | _ :: _ => map (fun i => map (fun j => map (fun k => ent rzero (eig (chan_slice w k)) i j) (seq 0 nc)) (seq 0 nsamp))
+                  (seq 0 3)
+  end.
+
+Lemma nth_error_seq0 n j : (j < n)%nat -> nth_error (seq 0 n) j = Some j.
+Proof. intros H. rewrite (nth_error_nth' _ O) by now rewrite seq_length. now rewrite seq_nth. Qed.
+
+Lemma pcs_by_channel_shape nsamp nc w : w <> [] ->
+  length (pcs_by_channel nsamp nc w) = 3%nat /\ forallb (is_shape nsamp nc) (pcs_by_channel nsamp nc w) = true.
+Proof.
+  intros Hw. destruct w as [|w0 w]; [contradiction|]. unfold pcs_by_channel. split; [reflexivity|].
+  apply forallb_forall. intros pi Hpi. apply in_map_iff in Hpi as (i & <- & _). unfold is_shape.
+  rewrite map_length, seq_length, Nat.eqb_refl. cbn [andb]. apply forallb_forall. intros r Hr.
+  apply in_map_iff in Hr as (j & <- & _). rewrite map_length, seq_length. apply Nat.eqb_refl.
+Qed.
+
+Lemma ent_pcs_by_channel nsamp nc w i j k pi : w <> [] -> (j < nsamp)%nat -> (k < nc)%nat ->
+  nth_error (pcs_by_channel nsamp nc w) i = Some pi -> ent rzero pi j k = ent rzero (eig (chan_slice w k)) i j.
+Proof.
+  intros Hw Hj Hk Hi. destruct w as [|w0 w]; [contradiction|]. unfold pcs_by_channel in Hi.
+  assert (Hi3 : (i < 3)%nat).
+  { destruct (Nat.lt_ge_cases i 3) as [H|H]; [exact H|]. exfalso.
+    rewrite (proj2 (nth_error_None _ i)) in Hi; [discriminate|]. now rewrite map_length, seq_length. }
+  rewrite nth_error_map, (nth_error_seq0 3 i Hi3) in Hi. cbn [option_map] in Hi. injection Hi as <-.
+  unfold ent at 1.
+  rewrite (nth_error_nth _ j [] (x := map (fun k0 => ent rzero (eig (chan_slice (w0 :: w) k0)) i j) (seq 0 nc)))
+    by now rewrite nth_error_map, (nth_error_seq0 nsamp j Hj).
+  apply nth_error_nth. now rewrite nth_error_map, (nth_error_seq0 nc k Hk).
+Qed.
+
+Variable scale : R -> R.
+
+(* the channel slice of the linked waveforms is a function of the channel (and of the requested stored spikes) only *)
+Lemma chan_slice_masked (data : list (list R)) n sps q_ch k ch : nth_error q_ch k = Some ch ->
+  chan_slice (map (fun sp => masked_window rzero scale data n sp q_ch) sps) k =
+  map (fun sp => map (fun t => if memZ ch (sp_ch sp) then scale (cell rzero data t ch) else rzero)
+                     (zrange (sp_s sp - n / 2) (Z.to_nat n))) sps.
+Proof.
+  intros Hk. unfold chan_slice. rewrite map_map. apply map_ext. intros sp. unfold masked_window. rewrite map_map.
+  apply map_ext. intros t. apply nth_error_nth. now rewrite nth_error_map, Hk.
+Qed.
+
+Theorem link_channel_local (data : list (list R)) n (sps : list spike) q_ch q_ch' feats feats' k k' ch :
+  let W := map (fun sp => masked_window rzero scale data n sp q_ch) sps in
+  let W' := map (fun sp => masked_window rzero scale data n sp q_ch') sps in
+  compute_features radd rmul rzero (pcs_by_channel (Z.to_nat n) (length q_ch)) (Z.to_nat n) (length q_ch) W = Some feats ->
+  compute_features radd rmul rzero (pcs_by_channel (Z.to_nat n) (length q_ch')) (Z.to_nat n) (length q_ch') W' = Some feats' ->
+  nth_error q_ch k = Some ch -> nth_error q_ch' k' = Some ch ->
+  length feats = length feats' /\
+  forall t frow frow', nth_error feats t = Some frow -> nth_error feats' t = Some frow' ->
+    nth_error frow k = nth_error frow' k'.
+Proof.
+  intros W W' Hf Hf' Hk Hk'.
+  destruct (link_route_cells radd rmul rzero _ scale data n sps q_ch feats Hf) as (H3 & Hrows).
+  destruct (link_route_cells radd rmul rzero _ scale data n sps q_ch' feats' Hf') as (H3' & Hrows').
+  fold W in H3, Hrows. fold W' in H3', Hrows'.
+  split.
+  { apply compute_features_spec in Hf as [_ Hp], Hf' as [_ Hp']. apply project_spec in Hp as [Hl _], Hp' as [Hl' _].
+    rewrite Hl, Hl'. unfold W, W'. now rewrite !map_length. }
+  intros t frow frow' Ht Ht'.
+  assert (Htl : (t < length sps)%nat).
+  { apply compute_features_spec in Hf as [_ Hp]. apply project_spec in Hp as [Hl _]. unfold W in Hl. rewrite map_length in Hl.
+    rewrite <- Hl. apply nth_error_Some. congruence. }
+  destruct (nth_error sps t) as [sp|] eqn:Esp; [|apply nth_error_None in Esp; lia].
+  assert (HWne : W <> []) by (unfold W; destruct sps; [destruct t; discriminate|discriminate]).
+  assert (HWne' : W' <> []) by (unfold W'; destruct sps; [destruct t; discriminate|discriminate]).
+  destruct (Hrows t sp Esp) as (fr & Hfr & _ & Hcells). destruct (Hrows' t sp Esp) as (fr' & Hfr' & _ & Hcells').
+  assert (fr = frow) by congruence. assert (fr' = frow') by congruence. subst fr fr'.
+  destruct (Hcells k ch Hk) as (fk & Hfk & Hl3 & Hv). destruct (Hcells' k' ch Hk') as (fk' & Hfk' & Hl3' & Hv').
+  rewrite Hfk, Hfk'. f_equal.
+  assert (Hklt : (k < length q_ch)%nat) by (apply nth_error_Some; congruence).
+  assert (Hklt' : (k' < length q_ch')%nat) by (apply nth_error_Some; congruence).
+  apply nth_error_ext_eq; [now rewrite Hl3, Hl3'|]. intros i.
+  destruct (nth_error (pcs_by_channel (Z.to_nat n) (length q_ch) W) i) as [pi|] eqn:Epi.
+  - assert (Hi3 : (i < 3)%nat) by (rewrite <- H3; apply nth_error_Some; congruence).
+    destruct (nth_error (pcs_by_channel (Z.to_nat n) (length q_ch') W') i) as [pi'|] eqn:Epi';
+      [|apply nth_error_None in Epi'; lia].
+    rewrite (Hv i pi Epi), (Hv' i pi' Epi'). f_equal. unfold sum_prod. f_equal. apply map_ext_in. intros j Hj.
+    apply in_seq in Hj. f_equal.
+    rewrite (ent_pcs_by_channel (Z.to_nat n) (length q_ch) W i j k pi HWne) by first [exact Epi | lia].
+    rewrite (ent_pcs_by_channel (Z.to_nat n) (length q_ch') W' i j k' pi' HWne') by first [exact Epi' | lia].
+    unfold W, W'. now rewrite (chan_slice_masked data n sps q_ch k ch Hk), (chan_slice_masked data n sps q_ch' k' ch Hk').
+  - apply nth_error_None in Epi. rewrite H3 in Epi.
+    assert (E1 : nth_error fk i = None) by (apply nth_error_None; lia).
+    assert (E2 : nth_error fk' i = None) by (apply nth_error_None; lia). now rewrite E1, E2.
+Qed.
+End PerChannel.
